@@ -22,7 +22,7 @@ META = {
                    "(Left(k) | [0,N[k]) | [0,N[k+1]) | Right(k+2)^T) = d aligned columns, and function_interpolate gathers core i of every argument "
                    "tensor with column i along its mode axis. Recovery accuracy, maxvol quality and seed independence are NOT decided.",
     "assumptions": ["QR/SVD are modelled by their shape laws for tall arguments (the wide case is X1); the start cores are orthogonalised, so min(N[k]*rank[k+1], rank[k]) = rank[k]", "interface matrices Ps[j] are square of size rank[j]"],
-    "floors": {"X1-ENRICH": 4, "E3-PARAM": 2, "X2-CALL": 2, "X2-GATHER": 8, "X2-UNRAVEL": 6, "X2-SELECT": 14, "X2-STORE": 6},
+    "floors": {"RANK-BOUND": 12, "X1-ENRICH": 4, "E3-PARAM": 2, "X2-CALL": 2, "X2-GATHER": 8, "X2-UNRAVEL": 6, "X2-SELECT": 14, "X2-STORE": 6},
 }
 ANCHORS = ["interpolate.dmrg_cross", "interpolate.function_interpolate", "interpolate._maxvol"]
 
@@ -85,7 +85,8 @@ def check(model: Model, tier: str):
         obs.append(Ob("E3-PARAM", f"{fn}:E3-PARAM:{p}", VIOLATED if effs else OK, effs[0].where if effs else model.where(fo), p,
                       f"`{p}` is written: {effs[0].construct}" if effs else "argument tensors are not written"))
     obs += rules.rule_unres(model, [model.func(a) for a in ANCHORS])
-    from ..ranges import check_function
+    from ..ranges import check_function, rule_rank_bound
     for fn in ("interpolate.dmrg_cross", "interpolate.function_interpolate"):
         obs += check_function(model, fn)
+        obs += rule_rank_bound(model, fn)
     return obs, {"functions": ANCHORS}
